@@ -1,5 +1,6 @@
 # C18 -- data-race freedom of the goroutine-safe APIs.
-# Theorems: coq/props/C18.v (vector-clock monitor lib/Race.v, publication protocol, instances
+# Theorems: coq/props/C18.v (relational happens-before race lib/RaceHB.v, proved equivalent to the
+# vector-clock monitor lib/Race.v in proofs/RaceHBProofs.v; publication protocol, instances
 # models/RaceInst.v). Tie to the code: (1) the access table regenerated from /repo's source
 # by harness/cmd/accesses must equal RaceInst.ri_access_table; (2) a -race build of
 # harness/cmd/racestress hammers every shared component in real time on 1..16 Ps: a race
@@ -11,7 +12,7 @@ import subprocess
 
 from . import common
 
-PROOFS = ["proofs/RaceProofs.v", "lib/Race.v", "models/RaceInst.v"]
+PROOFS = ["proofs/RaceProofs.v", "proofs/RaceHBProofs.v", "lib/Race.v", "lib/RaceHB.v", "models/RaceInst.v"]
 
 
 def coq_table():
@@ -119,9 +120,10 @@ def run(chk):
     chk.trusted = common.BASE_TRUSTED + [
         "harness/cmd/accesses: go/ast classification of accesses (which fields are tracked is a list in that file)",
         "Go race detector (TSan) as the implementation-side oracle",
-        "modelled, not verified: 'data race' is defined by the vector-clock monitor lib/Race.v (the notion the Go race detector implements); "
-        "its equivalence with the Go memory model's happens-before is not proved; only the publication patterns listed in RaceInst.v are covered by theorems, "
-        "other fields only by the detector"]
+        "modelled, not verified: Go's synchronisation (sequentially consistent atomics, Mutex, WaitGroup, channels, go statement) is represented by "
+        "release/acquire events on sync objects (every acquire synchronizes with all earlier releases on the object) in lib/RaceHB.v; the vector-clock monitor "
+        "lib/Race.v is PROVED to decide the relational happens-before race of that representation (c18_monitor_sound / c18_monitor_complete); "
+        "only the publication patterns listed in RaceInst.v are covered by theorems, other fields only by the detector"]
     chk.assumptions = ["atomic operations, mutexes, WaitGroups and channels synchronise as the Go memory model says",
                        "the components are used through their public API as the stress clients do"]
     chk.cov["rule"] = ("(1) one case per function row of the access table (synchronisation fingerprint regenerated from the source vs the row stored in RaceInst.v); "
